@@ -12,7 +12,7 @@ OWNER = {
     "disc": "C02",
     "newp": "C03", "useful": "C03",
     "nocrash": "C06", "idle": "C06", "disjoint": "C06", "uinp": "C06", "mono": "C06", "noreturn": "C06", "round": "C06",
-    "samples": "C06", "cost": "C06", "ret": "C06",
+    "samples": "C06", "cost": "C06", "ret": "C06", "flatp": "C06",
     "sactive": "C07", "sargmax": "C07", "sdistinct": "C07", "data": "C07",
 }
 
